@@ -429,14 +429,30 @@ package oidc
 
 //@ func (*sessionStoreFactory).PreRun
 //@   requires wf: s != nil && s.Config != nil && WFConfig(s.Config) && s.memory == nil
+//@   requires alloc: forall i int, j int :: 0 <= i && i < len(s.Config.Chains) && 0 <= j && j < len(s.Config.Chains[i].Filters) ==> s.Config.Chains[i].Filters[j].Type.pay <= watermark()
 //@   modifies s.log, s.redis, s.memory, above(watermark())
-//@   ensures  timeouts_wired: result == nil ==> forall i int, j int :: 0 <= i && i < len(s.Config.Chains) && 0 <= j && j < len(s.Config.Chains[i].Filters) && s.Config.Chains[i].Filters[j].GetOidc() != nil ==> s.Get(s.Config.Chains[i].Filters[j].GetOidc()) != nil && StoreAbs(s.Get(s.Config.Chains[i].Filters[j].GetOidc())) == s.Config.Chains[i].Filters[j].GetOidc().GetAbsoluteSessionTimeout() * SECOND && StoreIdle(s.Get(s.Config.Chains[i].Filters[j].GetOidc())) == s.Config.Chains[i].Filters[j].GetOidc().GetIdleSessionTimeout() * SECOND
-//@   ensures  exclusive: result == nil ==> forall i int, j int, i2 int, j2 int :: 0 <= i && i < len(s.Config.Chains) && 0 <= j && j < len(s.Config.Chains[i].Filters) && 0 <= i2 && i2 < len(s.Config.Chains) && 0 <= j2 && j2 < len(s.Config.Chains[i2].Filters) && s.Config.Chains[i].Filters[j].GetOidc() != nil && s.Config.Chains[i2].Filters[j2].GetOidc() != nil && s.Config.Chains[i].Filters[j].GetOidc() != s.Config.Chains[i2].Filters[j2].GetOidc() ==> s.Get(s.Config.Chains[i].Filters[j].GetOidc()).pay != s.Get(s.Config.Chains[i2].Filters[j2].GetOidc()).pay
+//@   ensures  timeouts_wired_single: result == nil && !MultiOIDC(s.Config) ==> forall i int, j int :: 0 <= i && i < len(s.Config.Chains) && 0 <= j && j < len(s.Config.Chains[i].Filters) && FOidc(s.Config, i, j) != nil ==> WiredTo(s, FOidc(s.Config, i, j))
+//@   ensures  timeouts_wired: result == nil ==> forall i int, j int :: 0 <= i && i < len(s.Config.Chains) && 0 <= j && j < len(s.Config.Chains[i].Filters) && FOidc(s.Config, i, j) != nil ==> WiredTo(s, FOidc(s.Config, i, j))
+//@   ensures  exclusive: result == nil ==> forall i int, j int, i2 int, j2 int :: 0 <= i && i < len(s.Config.Chains) && 0 <= j && j < len(s.Config.Chains[i].Filters) && 0 <= i2 && i2 < len(s.Config.Chains) && 0 <= j2 && j2 < len(s.Config.Chains[i2].Filters) && FOidc(s.Config, i, j) != nil && FOidc(s.Config, i2, j2) != nil && FOidc(s.Config, i, j) != FOidc(s.Config, i2, j2) ==> s.Get(FOidc(s.Config, i, j)).pay != s.Get(FOidc(s.Config, i2, j2)).pay
 //@   loop 1 invariant wf: s != nil && s.Config != nil && WFConfig(s.Config) && s.Config.Chains == $rangeslice1 && s.redis != nil && s.log != nil
 //@   loop 2 invariant wf: s != nil && s.Config != nil && WFConfig(s.Config) && s.Config.Chains == $rangeslice1 && s.Config.Chains[rangeindex1 + 1].Filters == $rangeslice2 && s.redis != nil && s.log != nil
-//@   loop 1 invariant wired1: forall i int, j int :: 0 <= i && i <= rangeindex1 && 0 <= j && j < len(s.Config.Chains[i].Filters) && s.Config.Chains[i].Filters[j].GetOidc() != nil ==> s.Get(s.Config.Chains[i].Filters[j].GetOidc()) != nil && StoreAbs(s.Get(s.Config.Chains[i].Filters[j].GetOidc())) == s.Config.Chains[i].Filters[j].GetOidc().GetAbsoluteSessionTimeout() * SECOND && StoreIdle(s.Get(s.Config.Chains[i].Filters[j].GetOidc())) == s.Config.Chains[i].Filters[j].GetOidc().GetIdleSessionTimeout() * SECOND
-//@   loop 2 invariant wired1: forall i int, j int :: 0 <= i && i <= rangeindex1 && 0 <= j && j < len(s.Config.Chains[i].Filters) && s.Config.Chains[i].Filters[j].GetOidc() != nil ==> s.Get(s.Config.Chains[i].Filters[j].GetOidc()) != nil && StoreAbs(s.Get(s.Config.Chains[i].Filters[j].GetOidc())) == s.Config.Chains[i].Filters[j].GetOidc().GetAbsoluteSessionTimeout() * SECOND && StoreIdle(s.Get(s.Config.Chains[i].Filters[j].GetOidc())) == s.Config.Chains[i].Filters[j].GetOidc().GetIdleSessionTimeout() * SECOND
-//@   loop 2 invariant wired2: forall j int :: 0 <= j && j <= rangeindex2 && s.Config.Chains[rangeindex1 + 1].Filters[j].GetOidc() != nil ==> s.Get(s.Config.Chains[rangeindex1 + 1].Filters[j].GetOidc()) != nil && StoreAbs(s.Get(s.Config.Chains[rangeindex1 + 1].Filters[j].GetOidc())) == s.Config.Chains[rangeindex1 + 1].Filters[j].GetOidc().GetAbsoluteSessionTimeout() * SECOND && StoreIdle(s.Get(s.Config.Chains[rangeindex1 + 1].Filters[j].GetOidc())) == s.Config.Chains[rangeindex1 + 1].Filters[j].GetOidc().GetIdleSessionTimeout() * SECOND
+//@   loop 1 invariant old_objs: s.Config <= old(watermark()) && s.Config.Chains.base <= old(watermark()) && forall i int, j int :: 0 <= i && i < len(s.Config.Chains) && 0 <= j && j < len(s.Config.Chains[i].Filters) ==> s.Config.Chains[i] <= old(watermark()) && s.Config.Chains[i].Filters[j] <= old(watermark()) && s.Config.Chains[i].Filters.base <= old(watermark()) && s.Config.Chains[i].Filters[j].Type.pay <= old(watermark()) && FOidc(s.Config, i, j) <= old(watermark()) && FOidc(s.Config, i, j).GetRedisSessionStoreConfig() <= old(watermark())
+//@   loop 2 invariant old_objs: s.Config <= old(watermark()) && s.Config.Chains.base <= old(watermark()) && forall i int, j int :: 0 <= i && i < len(s.Config.Chains) && 0 <= j && j < len(s.Config.Chains[i].Filters) ==> s.Config.Chains[i] <= old(watermark()) && s.Config.Chains[i].Filters[j] <= old(watermark()) && s.Config.Chains[i].Filters.base <= old(watermark()) && s.Config.Chains[i].Filters[j].Type.pay <= old(watermark()) && FOidc(s.Config, i, j) <= old(watermark()) && FOidc(s.Config, i, j).GetRedisSessionStoreConfig() <= old(watermark())
+//@   loop 1 invariant stores: forall k string :: mapHas(s.redis, k) ==> istype(s.redis[k], *redisStore) && s.redis[k].(*redisStore) != nil
+//@   loop 2 invariant stores: forall k string :: mapHas(s.redis, k) ==> istype(s.redis[k], *redisStore) && s.redis[k].(*redisStore) != nil
+//@   loop 2 invariant cur_redis: rangeindex2 >= 0 && FOidc(s.Config, rangeindex1 + 1, rangeindex2) != nil && FOidc(s.Config, rangeindex1 + 1, rangeindex2).GetRedisSessionStoreConfig().GetServerUri() != "" ==> mapHas(s.redis, FOidc(s.Config, rangeindex1 + 1, rangeindex2).GetRedisSessionStoreConfig().GetServerUri()) && s.redis[FOidc(s.Config, rangeindex1 + 1, rangeindex2).GetRedisSessionStoreConfig().GetServerUri()].(*redisStore).absoluteSessionTimeout == FOidc(s.Config, rangeindex1 + 1, rangeindex2).GetAbsoluteSessionTimeout() * SECOND && s.redis[FOidc(s.Config, rangeindex1 + 1, rangeindex2).GetRedisSessionStoreConfig().GetServerUri()].(*redisStore).idleSessionTimeout == FOidc(s.Config, rangeindex1 + 1, rangeindex2).GetIdleSessionTimeout() * SECOND
+//@   loop 2 invariant cur_get: rangeindex2 >= 0 && FOidc(s.Config, rangeindex1 + 1, rangeindex2) != nil && FOidc(s.Config, rangeindex1 + 1, rangeindex2).GetRedisSessionStoreConfig().GetServerUri() != "" ==> s.Get(FOidc(s.Config, rangeindex1 + 1, rangeindex2)) == s.redis[FOidc(s.Config, rangeindex1 + 1, rangeindex2).GetRedisSessionStoreConfig().GetServerUri()]
+//@   loop 1 invariant noempty: !mapHas(s.redis, "")
+//@   loop 2 invariant noempty: !mapHas(s.redis, "")
+//@   loop 1 invariant single: !MultiOIDC(s.Config) ==> forall a int, b int, a2 int, b2 int :: 0 <= a && a < len(s.Config.Chains) && 0 <= b && b < len(s.Config.Chains[a].Filters) && 0 <= a2 && a2 < len(s.Config.Chains) && 0 <= b2 && b2 < len(s.Config.Chains[a2].Filters) && FOidc(s.Config, a, b) != nil && FOidc(s.Config, a2, b2) != nil ==> FOidc(s.Config, a, b) == FOidc(s.Config, a2, b2)
+//@   loop 2 invariant single: !MultiOIDC(s.Config) ==> forall a int, b int, a2 int, b2 int :: 0 <= a && a < len(s.Config.Chains) && 0 <= b && b < len(s.Config.Chains[a].Filters) && 0 <= a2 && a2 < len(s.Config.Chains) && 0 <= b2 && b2 < len(s.Config.Chains[a2].Filters) && FOidc(s.Config, a, b) != nil && FOidc(s.Config, a2, b2) != nil ==> FOidc(s.Config, a, b) == FOidc(s.Config, a2, b2)
+//@   loop 1 invariant mem_wired: !MultiOIDC(s.Config) && s.memory != nil ==> istype(s.memory, *memoryStore) && forall a int, b int :: 0 <= a && a < len(s.Config.Chains) && 0 <= b && b < len(s.Config.Chains[a].Filters) && FOidc(s.Config, a, b) != nil ==> StoreAbs(s.memory) == FOidc(s.Config, a, b).GetAbsoluteSessionTimeout() * SECOND && StoreIdle(s.memory) == FOidc(s.Config, a, b).GetIdleSessionTimeout() * SECOND
+//@   loop 2 invariant mem_wired: !MultiOIDC(s.Config) && s.memory != nil ==> istype(s.memory, *memoryStore) && forall a int, b int :: 0 <= a && a < len(s.Config.Chains) && 0 <= b && b < len(s.Config.Chains[a].Filters) && FOidc(s.Config, a, b) != nil ==> StoreAbs(s.memory) == FOidc(s.Config, a, b).GetAbsoluteSessionTimeout() * SECOND && StoreIdle(s.memory) == FOidc(s.Config, a, b).GetIdleSessionTimeout() * SECOND
+//@   loop 2 invariant cur_wired: !MultiOIDC(s.Config) && rangeindex2 >= 0 && FOidc(s.Config, rangeindex1 + 1, rangeindex2) != nil ==> WiredTo(s, FOidc(s.Config, rangeindex1 + 1, rangeindex2))
+//@   loop 2 invariant single_here: !MultiOIDC(s.Config) && rangeindex2 >= 0 ==> forall j int :: 0 <= j && j <= rangeindex2 && FOidc(s.Config, rangeindex1 + 1, j) != nil && FOidc(s.Config, rangeindex1 + 1, rangeindex2) != nil ==> FOidc(s.Config, rangeindex1 + 1, j) == FOidc(s.Config, rangeindex1 + 1, rangeindex2)
+//@   loop 1 invariant wired1: !MultiOIDC(s.Config) ==> forall i int, j int :: 0 <= i && i <= rangeindex1 && 0 <= j && j < len(s.Config.Chains[i].Filters) && FOidc(s.Config, i, j) != nil ==> WiredTo(s, FOidc(s.Config, i, j))
+//@   loop 2 invariant wired1: !MultiOIDC(s.Config) ==> forall i int, j int :: 0 <= i && i <= rangeindex1 && 0 <= j && j < len(s.Config.Chains[i].Filters) && FOidc(s.Config, i, j) != nil ==> WiredTo(s, FOidc(s.Config, i, j))
+//@   loop 2 invariant wired2: !MultiOIDC(s.Config) ==> forall j int :: 0 <= j && j <= rangeindex2 && FOidc(s.Config, rangeindex1 + 1, j) != nil ==> WiredTo(s, FOidc(s.Config, rangeindex1 + 1, j))
 
 // ---------------------------------------------------------------------------------------------
 // lock discipline (C16): which lock protects which shared location
